@@ -273,6 +273,7 @@ pub fn run(ctx: &Ctx) -> Report {
     rep.assumptions = vec!["format documentation in src/cache/mod.rs:1-34 and field lists of raw.rs (version 1)".into()];
     let n = ctx.cases(50_000, 600_000);
     rep.run_stage("ast", || map_case(&cfg()), n, check_case);
+    rep.run_stage("tall", || tall_case(&cfg()), ctx.cases(200, 3000), check_case);
     let nw = ctx.cases(100, 1500);
     let max = ctx.tier.pick(150, 400);
     rep.run_stage("wide", move || super::c04::wide_case(max), nw, check_case);
@@ -287,7 +288,7 @@ pub fn run(ctx: &Ctx) -> Report {
 pub fn replay(stage: &str, case: &Value) -> Check {
     let mut st = Stats::new();
     match stage {
-        "ast" | "wide" => check_case(&serde_json::from_value(case.clone()).map_err(|e| Fail::new("harness-replay", e.to_string()))?, &mut st),
+        "ast" | "wide" | "tall" => check_case(&serde_json::from_value(case.clone()).map_err(|e| Fail::new("harness-replay", e.to_string()))?, &mut st),
         "corpus" => check_corpus(&serde_json::from_value(case.clone()).map_err(|e| Fail::new("harness-replay", e.to_string()))?, &mut st),
         _ => Err(Fail::new("harness-replay", format!("unknown stage {stage}"))),
     }
